@@ -27,6 +27,7 @@ pub fn seg_of<F: Real>(l: &Ev<F>) -> Option<Seg> {
 
 #[derive(Default, Debug, Clone)]
 pub struct SweepStats {
+    pub event_fans: u64,
     pub sweeps: u64,
     pub complete_sweeps: u64,
     pub events: u64,
@@ -822,6 +823,60 @@ pub fn check_segment_pair(rng: &mut crate::util::Rng, st: &mut SweepStats) -> Re
         return Ok(());
     }
     check_one_pair(old, new, rng.below(2) == 0, rng.below(2) == 0, st)
+}
+
+/// A fan of events at one vertex whose segments are *nearly* collinear: P and a direction d have short decimal
+/// coordinates, the other endpoints are P + t*d evaluated in floating point, so they are collinear "in decimal" but
+/// (usually) not in binary - the exact orientation is a few ulps, while naive cross products often cancel to zero.
+/// The event order must still follow the exact angular rule, be antisymmetric and transitive. Truly collinear draws fall
+/// under the subject-first clause or are skipped by the oracle.
+pub fn check_event_fan(rng: &mut crate::util::Rng, st: &mut SweepStats) -> Result<(), String> {
+    let dec = |rng: &mut crate::util::Rng, lo: i64, hi: i64| rng.range(lo, hi) as f64 / 10.0;
+    let p = (dec(rng, -200, 200), dec(rng, -200, 200));
+    let d = (dec(rng, 1, 99), dec(rng, -99, 99));
+    let scale = [1.0, 1.0, 1e3, 1e-3, 0.7][rng.below(5) as usize];
+    let p = (p.0 * scale, p.1 * scale);
+    let d = (d.0 * scale, d.1 * scale);
+    let n = rng.range(2, 5) as usize;
+    let mut evs: Vec<Ev<f64>> = Vec::new();
+    let mut keep: Vec<(Ev<f64>, Ev<f64>)> = Vec::new();
+    let mut used: Vec<Pt> = Vec::new();
+    for i in 0..n {
+        let mut t = rng.range(1, 12) as f64;
+        if rng.below(3) == 0 {
+            t = -t;
+        }
+        // some members of the fan in clearly different directions
+        let q = if rng.below(4) == 0 { (p.0 + t * d.0, p.1 + t * d.1 + dec(rng, -30, 30) * scale) } else { (p.0 + t * d.0, p.1 + t * d.1) };
+        if q == p || used.contains(&q) {
+            continue;
+        }
+        used.push(q);
+        let (l, r) = mk_left::<f64>((p, q), rng.below(2) == 0, i as u32 + 1);
+        // the event sitting at P
+        // the partner is referenced weakly: keep both alive for the duration of the check
+        if pt(&l) == p {
+            evs.push(l.clone());
+        } else {
+            evs.push(r.clone());
+        }
+        keep.push((l, r));
+    }
+    if evs.len() < 2 {
+        return Ok(());
+    }
+    // two edges of ONE operand leaving the vertex in exactly the same direction overlap: not a valid operand
+    for i in 0..evs.len() {
+        for j in i + 1..evs.len() {
+            if evs[i].is_left() == evs[j].is_left() && evs[i].is_subject == evs[j].is_subject && orient(p, used[i], used[j]) == 0 {
+                return Ok(());
+            }
+        }
+    }
+    st.event_fans += 1;
+    let r = check_event_order(&evs, st, rng);
+    drop(keep);
+    r
 }
 
 fn check_one_pair(old: Seg, new: Seg, subj_old: bool, subj_new: bool, st: &mut SweepStats) -> Result<(), String> {
